@@ -179,8 +179,8 @@ PROPS = {
                 "with path RTT >= 40 ms. Non-trivial = loss declarations, PTO probes or space discards with packets outstanding occurred; "
                 "distinct = hash of configuration x mechanisms observed.",
         "assumptions": SIM_ASSUME + ["RTT values used by a loss decision are those of the recovery_metrics event preceding or following it; timers may fire 1 ms early (kGranularity)"],
-        "tiers": {"quick": [sim_job("C09", 960)], "thorough": [sim_job("C09", 32000)]},
-        "min_quick": {"evaluations": 900, "c09.loss_declarations": 100_000, "c09.cc_calls_checked": 2_000_000},
+        "tiers": {"quick": [sim_job("C09", 960), sim_job("C09bh", 160)], "thorough": [sim_job("C09", 32000), sim_job("C09bh", 3200)]},
+        "min_quick": {"evaluations": 1000, "c09.loss_declarations": 100_000, "c09.cc_calls_checked": 2_000_000, "c09.pto_backoff_steps_checked": 800},
         "min_thorough": {"evaluations": 30000, "c09.loss_declarations": 3_000_000},
     },
     "C10": {
